@@ -492,6 +492,209 @@ def gen_rs(variants, visit, emit):
     return "\n".join(R) + "\n"
 
 
+# ----------------------------------------------------------------------------- package type tree (derive items)
+
+OUT_PKG = "/verif/lean/DoraModel/Gen/PkgTypes.lean"
+PKG_FILES = ["program.rs", "data.rs", "ty.rs", "opcode.rs"]
+PRIMS = {"u8": "u8", "u16": "u16", "u32": "u32", "u64": "u64", "usize": "u64", "i32": "i32", "i64": "i64",
+         "bool": "bool", "f32": "f32", "f64": "f64", "char": "char", "String": "str"}
+
+
+def split_top(s, sep=","):
+    out, depth, cur = [], 0, ""
+    for ch in s:
+        if ch in "([{<":
+            depth += 1
+        elif ch in ")]}>":
+            depth -= 1
+        if ch == sep and depth == 0:
+            out.append(cur.strip())
+            cur = ""
+        else:
+            cur += ch
+    if cur.strip():
+        out.append(cur.strip())
+    return out
+
+
+def paren_after(s, i, open_ch, close_ch):
+    depth = 0
+    j = i
+    while j < len(s):
+        if s[j] == open_ch:
+            depth += 1
+        elif s[j] == close_ch:
+            depth -= 1
+            if depth == 0:
+                return s[i + 1:j], j + 1
+        j += 1
+    raise TieError("unbalanced " + open_ch)
+
+
+def parse_items():
+    """name -> ('struct', [(field, type)]) | ('enum', [(variant, [types])]) | ('alias', type) for the derive items."""
+    items = {}
+    for fn in PKG_FILES:
+        src = strip_comments(read(fn))
+        for m in re.finditer(r"pub type (\w+) = ([^;]+);", src):
+            items[m.group(1)] = ("alias", m.group(2).strip())
+        for m in re.finditer(r"#\[derive\(([^)]*)\)\]\s*((?:#\[[^\]]*\]\s*)*)pub (struct|enum) (\w+)\s*(<[^>{(]*>)?\s*([{(])", src):
+            derives = [d.strip() for d in m.group(1).split(",")]
+            name = m.group(4)
+            if not ("Encode" in derives and "Decode" in derives):
+                continue
+            need(not m.group(5), "derive item %s is generic" % name)
+            need(name not in items, "derive item %s defined twice" % name)
+            if m.group(3) == "struct":
+                if m.group(6) == "{":
+                    body, _ = block_after(src, m.end() - 1)
+                    fields = []
+                    for f in split_top(body):
+                        f = re.sub(r"^(pub(\([^)]*\))?\s+)", "", f)
+                        need(":" in f, "struct %s: field `%s`" % (name, f))
+                        n, t = f.split(":", 1)
+                        fields.append((n.strip(), t.strip()))
+                    items[name] = ("struct", fields)
+                else:
+                    body, _ = paren_after(src, m.end() - 1, "(", ")")
+                    tys = [re.sub(r"^(pub(\([^)]*\))?\s+)", "", t) for t in split_top(body)]
+                    items[name] = ("struct", [(str(i), t) for i, t in enumerate(tys)])
+            else:
+                need(m.group(6) == "{", "enum %s: shape" % name)
+                body, _ = block_after(src, m.end() - 1)
+                variants = []
+                for v in split_top(body):
+                    mv = re.fullmatch(r"(\w+)\s*(?:=\s*(\d+))?", v)
+                    if mv:
+                        if mv.group(2) is not None:
+                            # bincode_derive 2.0.1 ignores explicit discriminants (position counts); insist they agree
+                            need(int(mv.group(2)) == len(variants),
+                                 "enum %s: discriminant of %s differs from its position" % (name, mv.group(1)))
+                        variants.append((mv.group(1), []))
+                        continue
+                    mv = re.fullmatch(r"(\w+)\s*\((.*)\)", v, re.S)
+                    if mv:
+                        variants.append((mv.group(1), split_top(mv.group(2))))
+                        continue
+                    mv = re.fullmatch(r"(\w+)\s*\{(.*)\}", v, re.S)
+                    need(mv, "enum %s: variant `%s`" % (name, v[:40]))
+                    tys = []
+                    for f in split_top(mv.group(2)):
+                        need(":" in f, "enum %s: field `%s`" % (name, f))
+                        tys.append(f.split(":", 1)[1].strip())
+                    variants.append((mv.group(1), tys))
+                items[name] = ("enum", variants)
+    # the hand-written codec of Id<T>: the u32 inside
+    prog = strip_comments(read("program.rs"))
+    need(re.search(r"impl<T> Encode for Id<T> \{\s*fn encode<[^{]*\{\s*self\.0\.encode\(encoder\)\s*\}", prog),
+         "program.rs: Encode for Id<T> is no longer `self.0.encode(encoder)`")
+    need(re.search(r"impl<Context, T> Decode<Context> for Id<T> \{[^}]*\{\s*Ok\(Id\(u32::decode\(decoder\)\?, PhantomData\)\)", prog, re.S),
+         "program.rs: Decode for Id<T> is no longer `u32::decode`")
+    need(re.search(r"pub struct Id<T>\(u32, PhantomData<T>\);", prog), "program.rs: Id<T> is no longer (u32, PhantomData<T>)")
+    return items
+
+
+class PkgEnv:
+    def __init__(self, items):
+        self.items = items
+        self.entries = []     # lean text per index
+        self.names = []
+        self.memo = {}
+
+    def alloc(self, key, name):
+        self.memo[key] = len(self.entries)
+        self.entries.append(None)
+        self.names.append(name)
+        return self.memo[key]
+
+    def ty(self, t):
+        t = re.sub(r"\s+", " ", t.strip())
+        if t in self.memo:
+            return self.memo[t]
+        if t in PRIMS:
+            i = self.alloc(t, t)
+            self.entries[i] = ".prim .%s" % PRIMS[t]
+            return i
+        if t == "Vec<u8>":
+            i = self.alloc(t, t)
+            self.entries[i] = ".prim .bytes"
+            return i
+        m = re.fullmatch(r"(\w+)<(.*)>", t)
+        if m:
+            head, inner = m.group(1), m.group(2)
+            if head == "Id":
+                need(re.fullmatch(r"\w+", inner), "Id<%s>" % inner)
+                return self.ty("u32")
+            if head in ("Box", "Arc"):
+                # Box<T> / Arc<T> encode as T (features/impl_alloc.rs)
+                i = self.alloc(t, t)
+                e = self.ty(inner)
+                self.entries[i] = ".tuple [%d]" % e
+                return i
+            if head in ("Vec", "Option"):
+                i = self.alloc(t, t)
+                e = self.ty(inner)
+                self.entries[i] = ".%s %d" % ("vec" if head == "Vec" else "opt", e)
+                return i
+            raise TieError("package types: unknown generic %s" % t)
+        if t.startswith("(") and t.endswith(")"):
+            i = self.alloc(t, t)
+            es = [self.ty(x) for x in split_top(t[1:-1])]
+            self.entries[i] = ".tuple [%s]" % ", ".join(map(str, es))
+            return i
+        need(re.fullmatch(r"\w+", t), "package types: unrecognised type `%s`" % t)
+        need(t in self.items, "package types: `%s` has no #[derive(Encode, Decode)] (and no known hand-written codec)" % t)
+        kind, body = self.items[t]
+        if kind == "alias":
+            j = self.ty(body)
+            self.memo[t] = j
+            return j
+        i = self.alloc(t, t)
+        if kind == "struct":
+            es = [self.ty(ft) for _, ft in body]
+            self.entries[i] = ".tuple [%s]" % ", ".join(map(str, es))
+        else:
+            vs = []
+            for vn, tys in body:
+                key = "%s::%s" % (t, vn)
+                j = self.alloc(key, key)
+                es = [self.ty(x) for x in tys]
+                self.entries[j] = ".tuple [%s]" % ", ".join(map(str, es))
+                vs.append(j)
+            self.entries[i] = ".enum [%s]" % ", ".join(map(str, vs))
+        return i
+
+
+def gen_pkg():
+    items = parse_items()
+    env = PkgEnv(items)
+    root = env.ty("Program")
+    need(all(e is not None for e in env.entries), "package types: unfinished entry")
+    L = []
+    L.append("import DoraModel.Bytecode.Schema")
+    L.append("/- GENERATED by /verif/tools/gen_bc.py from the #[derive(Encode, Decode)] items of")
+    L.append("   /repo/dora-bytecode/src/{program,data,ty,opcode}.rs reachable from `Program`. Rewritten on every check run. -/")
+    L.append("namespace Dora.Bincode")
+    L.append("")
+    L.append("/-- the type table: entry i describes the Rust type `pkgTypeNames[i]` -/")
+    L.append("def pkgEnv : Env := #[")
+    for i, e in enumerate(env.entries):
+        L.append("  %s%s  -- %d %s" % (e, "," if i + 1 < len(env.entries) else "", i, env.names[i]))
+    L.append("]")
+    L.append("")
+    L.append("/-- table index of `Program` -/")
+    L.append("def pkgRoot : Nat := %d" % root)
+    L.append("")
+    L.append("def pkgTypeNames : Array String := #[%s]" % ", ".join('"%s"' % n for n in env.names))
+    L.append("")
+    L.append("end Dora.Bincode")
+    text = "\n".join(L) + "\n"
+    changed = write_if_changed(OUT_PKG, text)
+    derive_items = sorted(n for n in env.names if n in items)
+    return dict(entries=len(env.entries), root=root, changed=changed, derive_items=derive_items)
+
+
+
 def write_if_changed(path, text):
     os.makedirs(os.path.dirname(path), exist_ok=True)
     if os.path.exists(path) and open(path, encoding="utf-8").read() == text:
@@ -509,7 +712,8 @@ def generate():
     rs = gen_rs(variants, visit, emit)
     c1 = write_if_changed(OUT_LEAN, lean)
     c2 = write_if_changed(OUT_RS, rs)
-    info = dict(opcodes=len(variants), lean_changed=c1, rs_changed=c2,
+    pkg = gen_pkg()
+    info = dict(opcodes=len(variants), lean_changed=c1, rs_changed=c2, pkg=pkg,
                 table={v: dict(byte=to_byte[v], read=rlayout[v], write=[k for _, k in emit[v]["wire"]],
                                api=[t for _, t in emit[v]["api"]], emit_perm=emit[v]["perm"],
                                visit_perm=visit[v]["perm"], const=emit[v]["const"], jump=emit[v].get("jump"),
@@ -526,6 +730,7 @@ if __name__ == "__main__":
     if "--json" in sys.argv:
         print(json.dumps(info))
     else:
-        print("gen_bc: %d opcodes; lean %s; harness dispatch %s" % (
+        print("gen_bc: %d opcodes; lean %s; harness dispatch %s; package type table %d entries (%d derive items) %s" % (
             info["opcodes"], "rewritten" if info["lean_changed"] else "unchanged",
-            "rewritten" if info["rs_changed"] else "unchanged"))
+            "rewritten" if info["rs_changed"] else "unchanged", info["pkg"]["entries"],
+            len(info["pkg"]["derive_items"]), "rewritten" if info["pkg"]["changed"] else "unchanged"))
